@@ -301,7 +301,29 @@ def family_replay(ctx, fam, cfg, prop=None):
     open(gp, "w").write("\n".join(gens) + "\n")
     tp = os.path.join(ctx.work, "family_%s_trace.ndjson" % fam)
     summ = ctx.vh_json(["sem-gen", gp, tp], timeout=3600)
-    r = ctx.tlc_trace("MachineTrace", cfg, tp, label="TLC judges the real runs of the exhaustive '%s' family" % fam, timeout=7200)
+    # the trace is cut at case boundaries into pieces TLC can hold (a set of more than 10^6 lines is refused)
+    pieces, cur, n = [], None, 0
+    with open(tp) as f:
+        for line in f:
+            if '"e":"case"' in line:
+                if cur is None or n >= 250000:
+                    if cur:
+                        cur.close()
+                    pieces.append(os.path.join(ctx.work, "family_%s_trace_%d.ndjson" % (fam, len(pieces))))
+                    cur, n = open(pieces[-1], "w"), 0
+            cur.write(line)
+            n += 1
+    if cur:
+        cur.close()
+
+    def val(pth):
+        return ctx.tlc_trace("MachineTrace", cfg, pth, label="TLC judges the real runs of the exhaustive '%s' family" % fam, timeout=7200)
+
+    viols_all = []
+    with cf.ThreadPoolExecutor(max_workers=4) as ex:
+        for pth, rr in zip(pieces, ex.map(val, pieces)):
+            viols_all.extend(rr["viols"])
+    r = {"viols": viols_all}
     ctx.cov["evaluations"] += summ["cases"]
     ctx.cov["distinct_nontrivial"] += summ["distinct_shapes"]
     ctx.cov["traces_validated_against_impl"] += summ["cases"]
